@@ -360,6 +360,19 @@ theorem C17_leading_blank_line_blocks (R : Tok → Tok → Prop) (hR : ∀ a b, 
     LRel (LRel R) (blocksOf (E ++ X)) (blocksOf Y) :=
   blocks_leading_empty_line_rel hR E X hE Y hY
 
+/-- **Extra blank / comment-only line in the source text.**  Source `u e0 x` with `u` lexing to
+    complete lines, `e0` a blank or comment-only line (lexes to an empty line); inserting a further
+    blank or comment-only line `e` after `e0`: the lexer restarts after every newline token
+    (`lexFrom_append_nl`), so the token stream of `u e0 e x` is that of `u e0 x` with the tokens of `e`
+    inserted and the tokens of `x` shifted, and `next_block` cuts the same blocks: same number of
+    blocks, corresponding blocks token by token with the same kind and text (`SameKT`). -/
+theorem C17_extra_blank_line_source (cs : CharSpec) (u e0 e x : List Char) (L : List (List Tok))
+    (hu : lex cs u = L.flatten) (hL : ∀ l ∈ L, IsLine l)
+    (hE0 : EmptyLine (lexFrom cs (utf8Len u) e0))
+    (hE : EmptyLine (lexFrom cs (utf8Len u + utf8Len e0) e)) :
+    LRel (LRel SameKT) (blocksOf (lex cs (u ++ (e0 ++ (e ++ x))))) (blocksOf (lex cs (u ++ (e0 ++ x)))) :=
+  blocks_extra_blank_line_source cs u e0 e x L hu hL hE0 hE
+
 /-- **… and the same events.**  With `R := TokSim` (same kinds and texts, offsets free): the block
     parsers run over the blocks of the stream with the extra empty line emit events related by
     `EvSim` (same content, spans shifted) to those of the original stream. -/
@@ -429,5 +442,15 @@ example : EmptyLine [⟨.lineComment, ['-', '-', 'x'], 4⟩, ⟨.newline, ['\n']
 /-- "a\n \nb" and "a\n \n--x\nb": one block `a`, one block `b` either way -/
 example : (blocksOf ([⟨.word, ['a'], 0⟩, ⟨.newline, ['\n'], 1⟩] ++ ([⟨.ws, [' '], 2⟩, ⟨.newline, ['\n'], 3⟩] ++
     ([⟨.lineComment, ['-', '-', 'x'], 4⟩, ⟨.newline, ['\n'], 7⟩] ++ [⟨.word, ['b'], 8⟩])))).length = 2 := by decide
+
+/-- the source-level hypotheses on "a\n" / "\n" / "--x\n" -/
+example : lex toyCharSpec ['a', '\n'] = [[⟨.word, ['a'], 0⟩, ⟨.newline, ['\n'], 1⟩]].flatten := by
+  simp [lex, lexFrom_cons, lexOne, singleKind, singleTable, toyCharSpec, isAsciiDigit, lexFrom, utf8Len]
+  decide
+example : lexFrom toyCharSpec 2 ['\n'] = [⟨.newline, ['\n'], 2⟩] := by
+  simp [lexFrom_cons, lexOne, lexFrom]
+example : lexFrom toyCharSpec 3 ['-', '-', 'x', '\n'] = [⟨.lineComment, ['-', '-', 'x'], 3⟩, ⟨.newline, ['\n'], 6⟩] := by
+  simp [lexFrom_cons, lexOne, lexFrom, utf8Len]
+  decide
 
 end Cook
